@@ -7,6 +7,8 @@
              depayloading is the media codec; wrap_rtx/unwrap_rtx are inverse (evaluation, see C07-RTP)
   C11-ORDER  statistics see the wire packet, NACK generation and the jitter buffer see the unwrapped packet
   C11-SERIAL serial-number discipline (C17 rule set) in rtcrtpreceiver.py / rtcrtpsender.py / rtp.py
+  C11-FEEDBACK / C11-JB  shared rules: NACK wire format and RTX wrapping (C07-NACK, C07-RTP), jitter-buffer frame integrity
+             (C10-FRAMES, C10-OVERFLOW)
 Does not decide: eventual delivery, byte identity of decoder input under loss schedules.
 """
 from __future__ import annotations
